@@ -54,7 +54,8 @@ def mk_ds(seed=0, n_obs=12, n_ch=4):
     from rsatoolbox.data import Dataset
     rs = np.random.RandomState(seed)
     return Dataset(np.abs(rs.randn(n_obs, n_ch)) + .1, descriptors={'sess': 1, 'note': 'y'},
-                   obs_descriptors={'cond': [(i * 5) % 4 for i in range(n_obs)], 'run': [i // 4 for i in range(n_obs)]},
+                   obs_descriptors={'cond': [(i * 5) % 4 for i in range(n_obs)], 'run': [i // 4 for i in range(n_obs)],
+                                    'one': [0] * n_obs},      # a descriptor with a single value (e.g. one baseline condition)
                    channel_descriptors={'vox': [f'v{i}' for i in range(n_ch)], 'roi': [i % 2 for i in range(n_ch)]})
 
 
@@ -129,6 +130,9 @@ def resolve(qual, pname, seed, tmp, sig):
         return 'run'
     if n in ('l2_obs_desc', 'obs_desc') and 'nested' in last:
         return 'cond'
+    if n in ('by', 'obs_desc') and '.data.' in qual and seed % 2 == 0 and \
+            last in ('get_measurements_tensor', 'cov_from_measurements', 'prec_from_measurements'):
+        return 'one'      # a single group (seeded change C12-m10: a view of the measurements handed out / centred in place)
     if n in ('by', 'obs_desc', 'descriptor') and '.data.' in qual:
         return 'cond'
     if n in ('descriptor',) and 'calc' in qual:
